@@ -295,7 +295,10 @@ func (h *H) Run(cc core.Cfg, sim *simrt.Sim) *core.Outcome {
 		simrt.Sleep(500 * time.Millisecond)
 		if cfg.Threshold > 1 { // with threshold 1 the probe itself reaches the threshold
 			// every source has been silent for a while: "a banned source that falls silent is unbanned within the
-			// configured number of maintenance rounds plus one" - the rounds are the ANTISPAM interval's
+			// configured number of maintenance rounds plus one" - the rounds are the ANTISPAM interval's.
+			// Injected stalls of the whole process stop here: a stalled process does not run its maintenance rounds
+			// either, and the statement counts rounds, not wall time
+			simrt.SetFaults(false)
 			simrt.Sleep(8 * cfg.MaintIvl)
 			srcs := map[int]bool{}
 			for _, ob := range all {
